@@ -28,7 +28,8 @@ func init() {
 			"(T4) Action.UnmarshalXML stores the Value of the start element's `type` attribute (and of no other attribute) into Action.Type and, for each of old, new, node, way, relation, decodes the child into a fresh object that the documented field of the action holds at the end of the iteration; Date parses the text it decoded with the layout it formats with; " +
 			"(T5) between DecodeElement and the return of Scan nothing is stored through the decoded object and it is handed to no code the analysis does not enter: the scanner yields what encoding/xml decoded, as a whole-document decode does. " +
 			"(T6) every DecodeElement reached inside a loop (the scanner, every UnmarshalXML) fills a value created in that loop iteration - DecodeElement keeps what the element does not carry, so a scratch value declared before the loop, partially reset, or retained makes an element inherit its predecessor's fields; what a custom decoder leaves in its receiver is not built on a package-level variable; a type with xml-tagged fields and its own UnmarshalXML stores each attribute named by a tag into the tagged field (and no other) and holds the decoded child of each element tag in the tagged field; a numeric or bool field filled from an attribute holds the result of strconv applied to the whole (trimmed) attribute text with base 10 and the field's bit size - a value computed by the decoder's own arithmetic is undecided, another base or bit size a violation. " +
-			"T2-T6 are decided on the behaviour observed by an abstract interpreter that explores Scan / UnmarshalXML, with everything they call, once per element name (and attribute name). " +
+			"(T7) the scanner reads tokens from a decoder configured like the one xml.Unmarshal builds: created by xml.NewDecoder, and on no path of package osmxml is Strict, AutoClose, Entity, DefaultSpace or CharsetReader of an *xml.Decoder given a non-default value (lenient tokenising closes elements early and accepts what the strict decoder rejects; a CharsetReader makes the scanner accept encodings whole-document decoding rejects - reported as a violation too, since scanning then yields objects where xml.Unmarshal returns an error); a decoder built by xml.NewTokenDecoder or handed to code that is not entered is undecided. " +
+			"T2-T7 are decided on the behaviour observed by an abstract interpreter that explores Scan / UnmarshalXML, with everything they call, once per element name (and attribute name). " +
 			"NOT decided: everything encoding/xml itself does (attribute order, whitespace, comments, entities, self-closing tags, unknown names are its documented behaviour), equality of decoded values, names outside the table (library extensions are covered by C04's symmetry rules only), and behaviour that only shows from the second iteration of a loop on.",
 		Assumptions: []string{"go/types (x/tools v0.29.0)", "documented naming rules of encoding/xml (struct tags, XMLName, slices append per occurrence, a nil pointer field is allocated once and reused, DecodeElement fills the pointee of a non-nil pointer and keeps the pointer)", "the path-enumerating abstract interpreter of rules/c03_eval.go (one iteration per loop, calls outside the repository opaque, function literals, method values, deferred calls, pointers to fields and never-reassigned unexported package-level tables are followed; goroutines, goto, generic functions and calls whose target is not known on the path make the exploration undecided)", "tables/osmxml.json transcribes the OSM documentation correctly"},
 		LevelText:   "Structural necessary conditions: struct tags agree with the externally specified OSM XML names for every table entry; for every element name the streaming scanner yields exactly the freshly decoded object of the container field's type, unmodified, and walks into everything else; custom decoders store the documented names into the documented fields. Value equality and encoding/xml's own behaviour are not decided.",
@@ -42,6 +43,7 @@ func init() {
 			{ID: "T4", Floor: 13, Doc: "custom decoders: Action.UnmarshalXML child elements (5 + 5) and type attribute; Date layout and decode", Run: c03T4},
 			{ID: "T5", Floor: 7, Doc: "the scanner publishes the decoded object unmodified: no store through it, no hand-off, between DecodeElement and return (7 names)", Run: c03T5},
 			{ID: "T6", Floor: 14, Doc: "hand-written element decoders: every DecodeElement reached in a loop fills a value created in that iteration (7 scanner names + 5 action children); a type with xml tags and its own UnmarshalXML reads the names its tags state", Run: c03T6},
+			{ID: "T7", Floor: 6, Doc: "the scanner's xml.Decoder is created by xml.NewDecoder and none of Strict / AutoClose / Entity / DefaultSpace / CharsetReader is given a non-default value anywhere in package osmxml: it tokenises like the decoder xml.Unmarshal builds (creation + 5 fields)", Run: c03T7},
 		},
 		Mutants: append([]core.Mutant{
 			{Name: "waynode-latlon-swapped", File: "way.go", Find: "Lat         float64     `xml:\"lat,attr,omitempty\"`\n\tLon         float64     `xml:\"lon,attr,omitempty\"`", Replace: "Lat         float64     `xml:\"lon,attr,omitempty\"`\n\tLon         float64     `xml:\"lat,attr,omitempty\"`", ExpectRule: "T1", ExpectConstruct: "ext WayNode"},
@@ -65,8 +67,8 @@ func init() {
 			{Name: "action-no-relation", File: "diff.go", Find: "\t\tcase \"relation\":\n\t\t\tr := &Relation{}\n\t\t\tif err := d.DecodeElement(&r, &start); err != nil {\n\t\t\t\treturn err\n\t\t\t}\n\t\t\ta.OSM = &OSM{Relations: Relations{r}}\n", Replace: "", ExpectRule: "T4", ExpectConstruct: "relation"},
 			{Name: "action-type-wrong-attr", File: "diff.go", Find: "if attr.Name.Local == \"type\" {", Replace: "if attr.Name.Local == \"action\" {", ExpectRule: "T4", ExpectConstruct: "attr@"},
 			{Name: "date-parse-other-layout", File: "note.go", Find: "d.Time, err = time.Parse(dateLayout, s)", Replace: "d.Time, err = time.Parse(time.RFC3339, s)", ExpectRule: "T4", ExpectConstruct: "layout@Date"},
-		}, append(c03Mutants2List(), c03FreshMutants...)...),
-		Benign: append(append(append([]core.Mutant{}, c03Benign...), c03Benign2List()...), c03FreshBenign...),
+		}, append(append([]core.Mutant{}, append(append(c03Mutants2List(), c03FreshMutants...), c03DecoderMutants...)...), c03Mutants5...)...),
+		Benign: append(append([]core.Mutant{}, append(append(append([]core.Mutant{}, c03Benign...), c03Benign2List()...), append(append([]core.Mutant{}, c03FreshBenign...), c03DecoderBenign...)...)...), c03Benign5...),
 	})
 }
 
